@@ -16,7 +16,7 @@ def reg(pid, category, text, note, technique, design):
         "thorough_cmd": "./check %s --tier thorough" % pid,
         "evidence_file": "/verif/evidence/%s.json" % pid,
         "replay_cmd_template": "./check %s --replay {path}" % pid,
-        "engine": "kani" if "MIR" not in technique else "kani+mirsmt",
+        "engine": "mirsmt" if technique.startswith("MIR") and "Kani" not in technique else ("kani+mirsmt" if "MIR" in technique else "kani"),
         "level_claimed": {"category": category, "text": text, "design_ref": design},
         "level_note": note,
         "technique": technique,
@@ -25,29 +25,101 @@ def reg(pid, category, text, note, technique, design):
 
 BMC = "bounded model checking (Kani 0.68 / CBMC 6.11 symbolic execution of the compiled crate, CaDiCaL SAT verdict)"
 
+MSMT = "MIR->SMT-LIB2 symbolic execution of the real functions (rustc -Zunpretty=mir of the current tree), z3 4.8.12 + cvc5 1.0 verdicts"
+
+reg("C01", "model_checking",
+    "Bounded, compositional: per message type, m symbolic (integers full range, floats from boundary candidates, lists 0..2 elements, MSM with 2 satellites x 2 signals in unsorted caller order): encode accepted => decode Ok consuming exactly the written bits, re-encode bit-identical, second decode equal. Field-level losslessness for ALL patterns is C08, the bit channel C07.",
+    "Trusts Kani/CBMC; whole-message runs with arbitrary decimal floats are outside the bound (covered per field by C08/C11); dispatch/number mapping is C14.",
+    BMC + " of msgNNNN::encode/decode round trips through the hook re-exports", "3/C01")
+reg("C02", "model_checking",
+    "Bounded: every decoder on every payload of a stated concrete length (all field bit patterns; list counts fixed per harness to 0,1,2 and to a value larger than the body; MSM masks from six concrete shapes incl. 64 and 72 cells; 1059/1065 with recognised and unrecognised signal ids): no panic, no arithmetic overflow (dev profile with overflow checks = the stricter profile), floats finite, m == m.",
+    "Trusts Kani/CBMC; counts above capacity are C15, the 391-entry container overflow C16, scanner termination C05, dispatch C14; msg1029 uses the from_utf8 reference stub.",
+    BMC + " of every msgNNNN::decode on symbolic payloads; all Rust panic sites are solver-checked assertions", "3/C02")
 reg("C03", "model_checking",
     "Bounded: every slice <= 12 (quick) / 16 (thorough) bytes decided against a bitwise CRC-24Q frame predicate; CRC byte step of the real crc_any object == 8 generator shifts over the complete 2^24 x 256 state space; every declared length 0..=1023 with the CRC arithmetic stubbed. Extension to all lengths is an induction argument (DESIGN.md C03), not a solver verdict.",
     "Trusts Kani's MIR->goto translation and CBMC; c03::long trusts the stub contract 'CRC is a function of the digested slice'; spec CRC typed from the property text (poly 0x1864CFB, init 0).",
     BMC + " of MessageFrame::new against an independent bitwise CRC-24Q specification; -Z stubbing for long frames", "3/C03")
+reg("C04", "model_checking",
+    "Direct and bounded: all valid frames of 8 and 10 (quick) / 12 bytes x all single-bit, double-bit and <=24-bit burst errors in reserved bits/payload/checksum are rejected and not delivered by the scanner. Any length: CRC step lemmas (linearity, parity, zero byte, augmentation, burst window) over the complete register state space; odd-weight and long-frame claims follow by a written induction.",
+    "Trusts Kani/CBMC; the all-lengths extension is an argument over solver-proved lemmas; double-bit errors at byte distances up to 1028 use the spec register (equal to the real step by c03::crc_step).",
+    BMC + " of MessageFrame::new/next_msg_frame on corrupted frames + CRC step lemmas on the real crc_any object", "3/C04")
+reg("C05", "model_checking",
+    "Bounded: real next_msg_frame == reference scanner on every buffer <= 8 (quick) / 10 bytes with the real CRC verdict, and on every buffer <= 24 / 48 bytes with the CRC stubbed by a per-call symbolic sequence (every declared length); MsgFrameIter == repeated reference scans on buffers <= 18 bytes.",
+    "Trusts Kani/CBMC; the verdict oracle is the real MessageFrame::new (tied to the bitwise spec by C03); longer buffers by argument (scanner state is one index).",
+    BMC + " of the scanner against a reference scanner written from the property text", "3/C05")
+reg("C06", "model_checking",
+    "By transitivity, each link a solver verdict: real scanner == reference scanner (C05 harnesses, run here); the real verdict has the abstract shape and is stable under extension (10-byte buffers; every L with stubbed CRC); the reference scanner over an abstract verdict is chunk independent for streams of 12 (quick) / 18, 24 positions with every declared length, one cut (inductive step), two cuts, byte-wise; plus the direct real-code form on 7-byte streams (thorough).",
+    "The composition of the links and the extension from one cut to any chunking are written arguments (the protocol state is one index).",
+    BMC + " of the real scanner + a chunk lemma on the reference scanner over an abstract per-candidate verdict", "3/C06")
 reg("C07", "model_checking",
     "Bounded: for every (carrier, width) the real Assembler::put / Parser::parse are decided against an 88-bit window specification for all values, all backgrounds, bit offsets 0..15; overflow path for symbolic buffer lengths.",
     "Trusts Kani/CBMC; offsets >= 16 outside the bound (code uses offset only via /8 and %8); 128-bit carriers excluded.",
     BMC + " of put/parse against a bit-level specification", "3/C07")
+reg("C08", "model_checking",
+    "All 2^len patterns of every df! field: bit-precisely by CBMC for integer, power-of-two and narrow f32 fields; for all 309 fields (including the 34-38-bit decimal ones) by SMT over a sound real-arithmetic abstraction of the MIR (unsat carries over to IEEE semantics); exactly one absent pattern.",
+    "M trusts the C07 bit-channel contract, the standard model of floating point, and its MIR translator, which is validated against the real functions on ~6700 vectors in every run; z3 and cvc5 must agree.",
+    BMC + " per field + " + MSMT, "3/C08")
+reg("C09", "model_checking",
+    "Field level: every df! encoder on every input value (all float bit patterns, full integer ranges): no panic, cursor accounting. Message level: every message encoder with integers over their full type, floats all-bits or boundary candidates, lists 0..2, MSM with symbolic ids and the 65-cell family: no panic, accepted values fit the payload. Frame level: public build_message for three types: header, length, number, checksum placement; no-wire-form messages refused. Builder dispatch decided on the MIR (C14).",
+    "Trusts Kani/CBMC; message-level harnesses call the codec the builder dispatches to (dispatch table checked structurally); CRC arithmetic stubbed in frame harnesses (C03).",
+    BMC + " of dfs::*::encode, msgNNNN::encode and MessageBuilder::build_message; panics are assertions", "3/C09")
+reg("C10", "model_checking",
+    "Mask helpers for all masks (signal mask concrete per popcount); for every MSM type: concrete satellite/signal sets in every caller order -> mask bits, row order after decode, re-encode identical; per constellation: error classes with symbolic offending elements, 65 cells refused, mask logic with symbolic identifiers (2 satellites x 2 cells).",
+    "Trusts Kani/CBMC and the reference signal tables; arbitrary id sets combined with arbitrary field lists are outside the bound.",
+    BMC + " of the MSM data-segment codecs and mask helpers", "3/C10")
+reg("C11", "model_checking",
+    "All 198 float fields, every REAL input between adjacent representable values: written integer is one of the two neighbours, |decode - x| <= res/2 + slack, no wrap, monotone. Unsat of the negated claims in a sound abstraction (standard model of IEEE-754) => holds for the real semantics.",
+    "Trusts the standard model of floating-point arithmetic, the C07 contract and the translator (validated each run); counter-models are concretised and replayed natively before being reported.",
+    MSMT + " (linear mixed integer/real arithmetic with explicit rounding-error variables)", "3/C11")
+reg("C12", "model_checking",
+    "Inductive step instead of history exploration: from EVERY 1029-byte builder state a build call first wipes to the fresh state (L1, solver); a fresh state gives the same output with the flag up or down (L2, solver); typed evidence with a dirty 96-byte window and symbolic messages incl. one that fails part-way. Histories of any length follow by induction (argument).",
+    "Needs the cfg-guarded hooks verif_from_raw/verif_raw; CRC arithmetic stubbed (equal buffers get equal checksums).",
+    BMC + " of MessageBuilder::build_message from an arbitrary internal state (inductive invariant)", "3/C12")
+reg("C13", "model_checking",
+    "Bounded: all 10 (quick) / 12-byte buffers x all nested slice pairs: a parsed frame's lengths, payload, checksum and message number do not change when bytes are appended; every declared length 0..=1023 with stubbed CRC.",
+    "get_message() equality follows from from_message_frame reading only message_number() and data() (checked on the MIR by C14).",
+    BMC + " of MessageFrame::new on nested slices of one buffer", "3/C13")
+reg("C14", "model_checking",
+    "All 4096 message numbers: the decode dispatch, number() and the encode dispatch are read from the MIR as switch tables and compared with the Cargo.toml feature list by SMT (unsat = no number is cross-wired); anchored on the compiled code by public-path harnesses for typed, unsupported and empty frames.",
+    "M trusts its structural reading of three MIR functions (anchored by K); decode calls are uninterpreted Ok/Err outcomes.",
+    MSMT + " over the dispatch switch tables + " + BMC + " anchors", "3/C14")
+reg("C15", "model_checking",
+    "Every n in 0..=capacity (thorough; quick n in {0,1,cap} for 8 types) with the real codecs: wire size, count fields, decoded length and order (symbolic element tags), m1 == m; every count value above capacity => Err; every truncation of a 2-element body => Err.",
+    "Trusts Kani/CBMC; element contents in long lists are defaults with a symbolic tag (content fidelity: C01/C08).",
+    BMC + " of the list-bearing message codecs, one run per (type, n)", "3/C15")
+reg("C16", "model_checking",
+    "One entry fully symbolic; three entries on fixed satellite arrangements with symbolic signals and biases (regrouping, stability); all 2^14 bias patterns; one entry on every satellite id (count-field boundary); hostile 403-entry frame (capacity); 1230 with every subset/order of its four signals.",
+    "Trusts Kani/CBMC and the SSR signal tables in spec.rs.",
+    BMC + " of the three hand-written bias-list codecs", "3/C16")
+reg("C17", "model_checking",
+    "Df88591String<N> for N in {4,7,31} over all char sequences of length <= N+2 (all scalar values); ArrayString<5>/<8> from <= 4 chars; 1029 text decoder on <= 4 arbitrary bytes and encoder at the 127/128 character boundary.",
+    "core::str::from_utf8 replaced by a reference validator under -Z stubbing (std trusted); N = 255 itself outside the bound.",
+    BMC + " of the two string types and the 1029 text codec", "3/C17")
 reg("C18", "model_checking",
     "Complete over the input types: all u8 ids, all (u8, char) descriptors, all pairs/triples for the order axioms, for 7 constellations, against reference tables typed from the standard.",
     "Trusts Kani/CBMC and the reference tables in kani/src/spec.rs.",
     BMC + " of the signal tables and SigId::cmp over the complete input types", "3/C18")
+reg("C20", "model_checking",
+    "Hand-written Serialize/Deserialize of Df88591String<4|7> and ArrayString<5> on every content, and two derived message types, through an in-harness token-tape serde back end: deserialize(serialize(x)) == x.",
+    "Other message types rely on serde_derive over the same building blocks; real data formats outside the claim; from_utf8 stubbed.",
+    BMC + " of the serde impls against a non-allocating token-tape Serializer/Deserializer", "3/C20")
 
 NOT_APPLICABLE = [
     {"property_id": "C19", "reason": "Quantifies over 111+ build configurations (feature selections): the deciding procedure is the Rust compiler per configuration; there is no input, state or schedule to make symbolic and no assertion for a solver. A build-matrix script would be a different technique (DESIGN.md section 5)."},
 ]
 
+# Only checks that have been run green on the unchanged tree at this revision are claimed.
+CLAIMED = ["C03", "C04", "C06", "C07", "C08", "C11", "C13", "C18"]
 PENDING = {}
 
 
 def main():
     ids = ["C%02d" % i for i in range(1, 21)]
     na = list(NOT_APPLICABLE)
+    for k in list(CHECKS):
+        if k not in CLAIMED:
+            PENDING[k] = "check is built (./check %s) but has not yet been validated green on the unchanged tree at this revision; not claimed until it has" % k
+            del CHECKS[k]
     for i in ids:
         if i not in CHECKS and i not in [n["property_id"] for n in na]:
             na.append({"property_id": i, "reason": PENDING.get(i, "check not built yet in this revision of /verif (planned, see DESIGN.md section 3); not claimed until it runs")})
